@@ -19,6 +19,8 @@ EXTENDS Naturals, Sequences, SequencesExt, FiniteSets, FiniteSetsExt, Words, Tex
 \* the key function is a parameter so that the exhaustive configs can memoise it
 \* (cfg: KeyFn <- Key for traces, KeyFn <- MemoKey in mc/)
 CONSTANT KeyFn(_, _), CatFn(_), RepoFn(_, _)
+\* payload algebra: concatenation of a sequence of payloads, size of a payload, payload of literal bytes
+CONSTANT Cat(_), Size(_), Lit(_)
 
 -----------------------------------------------------------------------------
 (* Path -> category, repository, keys *)
@@ -79,37 +81,39 @@ Probe(disk, p) ==
   IN [chunk |-> best[1].chunk, dat |-> best[1].entries[best[2]].dat, off |-> best[1].entries[best[2]].off]
 
 -----------------------------------------------------------------------------
-(* Data side.  A block is its decoded payload (a byte sequence); whether it   *)
-(* was stored raw or deflated does not matter to the result.                  *)
-Concat(bs) == Flatten(bs)
-ExtractStandard(d) == Concat(d.blocks)
-ExtractTexture(d) == d.header \o Concat([i \in 1..Len(d.mips) |-> Concat(d.mips[i])])
+(* Data side.  A block is its decoded payload; whether it was stored raw or   *)
+(* deflated does not matter to the result.  Payloads are values of an abstract*)
+(* sequence algebra (Cat, Size, Lit) so that the same definitions run on byte *)
+(* sequences (mc/) and on run-length encoded contents (trace/).               *)
+Concat(bs) == Cat(bs)
+ExtractStandard(d) == Cat(d.blocks)
+ExtractTexture(d) == Cat(<<d.header>> \o [i \in 1..Len(d.mips) |-> Cat(d.mips[i])])
 
 LE32W(w) == BytesLE(w)
 LE16(n) == <<n % 256, n \div 256>>
 Bool8(b) == IF b THEN 1 ELSE 0
 \* model: synthesised 0x44-byte header, then stack, runtime and per LOD vertex, index data
 ModelLayout(d) ==
-  LET stack == Concat(d.stack)
-      runtime == Concat(d.runtime)
-      v(i) == Concat(d.vertex[i])
-      x(i) == Concat(d.index[i])
+  LET stack == Cat(d.stack)
+      runtime == Cat(d.runtime)
+      v(i) == Cat(d.vertex[i])
+      x(i) == Cat(d.index[i])
       \* running position of each section in the output
-      p0 == 68 + Len(stack) + Len(runtime)
-      vpos(i) == p0 + FoldLeft(LAMBDA a, j : a + Len(v(j)) + Len(x(j)), 0, [j \in 1..(i - 1) |-> j])
-      xpos(i) == vpos(i) + Len(v(i))
+      p0 == 68 + Size(stack) + Size(runtime)
+      vpos(i) == p0 + FoldLeft(LAMBDA a, j : a + Size(v(j)) + Size(x(j)), 0, [j \in 1..(i - 1) |-> j])
+      xpos(i) == vpos(i) + Size(v(i))
   IN [stack |-> stack, runtime |-> runtime,
       voff |-> [i \in 1..3 |-> IF d.vertex[i] = <<>> THEN 0 ELSE vpos(i)],
       xoff |-> [i \in 1..3 |-> IF d.index[i] = <<>> THEN 0 ELSE xpos(i)],
-      vsize |-> [i \in 1..3 |-> Len(v(i))], xsize |-> [i \in 1..3 |-> Len(x(i))],
-      body |-> stack \o runtime \o Concat([i \in 1..3 |-> v(i) \o x(i)])]
+      vsize |-> [i \in 1..3 |-> Size(v(i))], xsize |-> [i \in 1..3 |-> Size(x(i))],
+      body |-> Cat(<<stack, runtime>> \o [i \in 1..3 |-> Cat(<<v(i), x(i)>>)])]
 ModelHeader(d, m) ==
-  LE32W(FromNat(d.version)) \o LE32W(FromNat(Len(m.stack))) \o LE32W(FromNat(Len(m.runtime)))
+  LE32W(FromNat(d.version)) \o LE32W(FromNat(Size(m.stack))) \o LE32W(FromNat(Size(m.runtime)))
     \o LE16(d.decls) \o LE16(d.mats)
-    \o Concat([i \in 1..3 |-> LE32W(FromNat(m.voff[i]))]) \o Concat([i \in 1..3 |-> LE32W(FromNat(m.xoff[i]))])
-    \o Concat([i \in 1..3 |-> LE32W(FromNat(m.vsize[i]))]) \o Concat([i \in 1..3 |-> LE32W(FromNat(m.xsize[i]))])
+    \o Flatten([i \in 1..3 |-> LE32W(FromNat(m.voff[i]))]) \o Flatten([i \in 1..3 |-> LE32W(FromNat(m.xoff[i]))])
+    \o Flatten([i \in 1..3 |-> LE32W(FromNat(m.vsize[i]))]) \o Flatten([i \in 1..3 |-> LE32W(FromNat(m.xsize[i]))])
     \o <<d.lods, Bool8(d.stream), Bool8(d.edge), 0>>
-ExtractModel(d) == LET m == ModelLayout(d) IN ModelHeader(d, m) \o m.body
+ExtractModel(d) == LET m == ModelLayout(d) IN Cat(<<Lit(ModelHeader(d, m)), m.body>>)
 Extract(d) == CASE d.kind = "std" -> ExtractStandard(d)
                 [] d.kind = "tex" -> ExtractTexture(d)
                 [] d.kind = "mdl" -> ExtractModel(d)
@@ -123,9 +127,9 @@ HeaderDescribesOutput(d) ==
   IN /\ U32(4) = Len(m.stack) /\ U32(8) = Len(m.runtime)
      /\ sect(68, U32(4)) = m.stack /\ sect(68 + U32(4), U32(8)) = m.runtime
      /\ \A i \in 1..3 :
-          /\ U32(40 + 4 * (i - 1)) = Len(Concat(d.vertex[i]))
-          /\ U32(52 + 4 * (i - 1)) = Len(Concat(d.index[i]))
-          /\ (d.vertex[i] # <<>>) => sect(U32(16 + 4 * (i - 1)), U32(40 + 4 * (i - 1))) = Concat(d.vertex[i])
-          /\ (d.index[i] # <<>>) => sect(U32(28 + 4 * (i - 1)), U32(52 + 4 * (i - 1))) = Concat(d.index[i])
+          /\ U32(40 + 4 * (i - 1)) = Len(Flatten(d.vertex[i]))
+          /\ U32(52 + 4 * (i - 1)) = Len(Flatten(d.index[i]))
+          /\ (d.vertex[i] # <<>>) => sect(U32(16 + 4 * (i - 1)), U32(40 + 4 * (i - 1))) = Flatten(d.vertex[i])
+          /\ (d.index[i] # <<>>) => sect(U32(28 + 4 * (i - 1)), U32(52 + 4 * (i - 1))) = Flatten(d.index[i])
      /\ Len(out) = 68 + Len(m.body)
 =============================================================================
